@@ -503,30 +503,36 @@ Definition x_divrem_op (P : profile) (lhs rhs : bvx) : outcome (bvx * bvx) :=
 
 (* ------------------------------------------------------------------ Display *)
 
-(* while !quotient.is_zero() { (quotient, remainder) = quotient.div_rem(&base); push digit } *)
-Fixpoint dec_loop (P : profile) (fuel : nat) (q base : bvx) (acc : list N) : outcome (list N) :=
+(* while !quotient.is_zero() { (quotient, remainder) = quotient.div_rem(&base); push digit }
+   `mkbase` is the construction of the constant ten in the vector's own type: the fixed type builds it
+   inside the loop (only a non-zero value needs it), the heap type before the loop (it cannot fail) *)
+Fixpoint dec_loop (P : profile) (fuel : nat) (q : bvx) (mkbase : outcome bvx) (acc : list N) : outcome (list N) :=
   match fuel with
   | O => OutOfFuel
   | S f =>
       let! z := x_is_zero q in
       if z then Ok acc
       else
+        let! base := mkbase in
         let! (q', r) := x_div_rem P q base in
         let! sig := x_sigbits P r in
         let! d := (if is_fixed r then f_to_uint (xw r) 32 sig (xv r) else d_to_uint 32 sig (xv r)) in
         (* char::from_digit(d, 10).unwrap() *)
         let! _ := assert_ (d <? 10) in
-        dec_loop P f q' base ((48 + d) :: acc)
+        dec_loop P f q' mkbase ((48 + d) :: acc)
   end.
 
 Definition fmt_display (P : profile) (x : bvx) : outcome (list N) :=
   let c := core x in
-  let! base :=
+  let! s :=
     match c with
-    | XF w v => match f_from_uint w (lenw (wd v)) 8 10 with Ok b => Ok (XF w b) | _ => Panic end
-    | _ => let! b := d_from_uint 8 10 in Ok (XD b)
+    | XF w v =>
+        dec_loop P (S (N.to_nat (xlen x))) c
+                 (match f_from_uint w (lenw (wd v)) 8 10 with Ok b => Ok (XF w b) | _ => Panic end) []
+    | _ =>
+        let! b := d_from_uint 8 10 in
+        dec_loop P (S (N.to_nat (xlen x))) c (Ok (XD b)) []
     end in
-  let! s := dec_loop P (S (N.to_nat (xlen x))) c base [] in
   Ok (if lenw s =? 0 then [48] else s).
 
 Definition x_fmt_digits (P : profile) (which : N) (x : bvx) : outcome (list N * list N) :=
